@@ -21,7 +21,8 @@ EXPLANATION = (
     "deleted instances, and pass 1 appends with the parsed state; (R3) in ReadInstance every ChangeState() call is "
     "guarded (on every path) by a test that excludes WORKING_SESSION, so the state recorded in the file is kept; "
     "(R4) Read/Append/WriteWorkingFile set the file type before and reset it after their work. "
-    "(R2b) both passes accept the state letter under the same condition and then consume the same sequence of stream operations. (R6) a cleared manager is recognised as empty by STEPfile::SetFileIdIncrement (shared with C14 R6). Not decided: population equality and byte-for-byte stability of the second save.")
+    "(R2b) both passes accept the state letter under the same condition and then consume the same sequence of stream operations. (R6) a cleared manager is recognised as empty by STEPfile::SetFileIdIncrement (shared with C14 R6). Not decided: population equality and byte-for-byte stability of the second save."
+    " (R7) a std::string declared outside a reading loop of STEPfile that is filled and cleared inside the loop (the comment accumulator of both passes, the skip buffer) is cleared after its last fill on every flag-consistent path that re-enters the loop body: nothing collected for a skipped (deleted) instance is carried to the next one.")
 
 
 def state_enum(prog):
@@ -271,6 +272,79 @@ def r4_bracket(prog, res):
                 "file type is %s%s" % ("" if ok else "not set to WORKING_SESSION before the work ", "" if ok2 else "not reset afterwards"))
 
 
+def r7_iteration_scratch_cleared(prog, res):
+    """Text collected for one instance must not reach the next.  A std::string local declared outside a reading loop that is filled
+    and cleared inside the loop is per-iteration scratch.  Typestate over the flag-consistent paths of the function (pathstate):
+    clean -> current (filled in this iteration) -> stale (still filled when the loop body is entered again); clear() and an
+    overwrite make it clean / current again.  No *consumer* of the string may be reached in state stale.  What consumes is computed,
+    not listed (strflow.consumes: the content is copied, printed or inspected - by the callee or by something it passes the string
+    on to); a buffer that is only ever appended to (the skip buffer of FindStartOfInstance / SkipInstance) has no consumer and cannot
+    fail.  A `continue` in the arm that skips an instance saved as deleted jumps past the clear: the comment read in front of the
+    deleted instance is attached, by ReadInstance -> AddP21Comment, to the next surviving one."""
+    import pathstate
+    import strflow
+    cons = strflow.consumes(prog)
+    res.info["r7_consuming_string_parameters"] = len(cons)
+    n = 0
+    for f in prog.all_functions():
+        if f.component != "cleditor" or f.cfg is None:
+            continue
+        for lp in f.walk():
+            if lp["k"] not in ("While", "For", "Do"):
+                continue
+            body = lp["ch"][-1] if lp["k"] != "Do" else lp["ch"][0]
+            if body is None:
+                continue
+            inner = {y["i"] for y in walk(body)}
+            cands = {}
+            for y in walk(body):
+                if y["k"] == "Call" and y.get("member") and y.get("ch"):
+                    o = strip(y["ch"][0])
+                    if o is not None and o["k"] == "Ref" and o.get("dk") == "local" and "basic_string" in f.ty(o) and \
+                            strflow.effect(prog, cons, y, o["d"]) == "clear":
+                        decl = [v for v in f.walk() if v["k"] == "Var" and v.get("d") == o["d"]]
+                        if decl and decl[0]["i"] not in inner:
+                            cands[o["d"]] = o["n"]
+            for d, name in sorted(cands.items()):
+                effs = {y["i"]: strflow.effect(prog, cons, y, d) for y in walk(body) if y["k"] == "Call"}
+                if not any(e == "fill" for e in effs.values()):
+                    continue
+                pos = f.first_pos(body)
+                if pos is None:
+                    continue
+                first = f.cfg.blocks[pos[0]]["e"][pos[1]]
+                hits = {}
+
+                def on_node(nd, ts, env, first=first, hits=hits, effs=effs):
+                    if nd["i"] == first and ts is not None and ts[0] == "cur":
+                        ts = ("stale", ts[1])
+                    e = effs.get(nd["i"])
+                    if e == "clear":
+                        return None
+                    if e == "overwrite":
+                        return ("cur", nd["l"])
+                    if e == "fill":
+                        return ts if ts is not None and ts[0] == "stale" else ("cur", nd["l"])
+                    if e == "consume" and ts is not None and ts[0] == "stale":
+                        hits.setdefault(nd["i"], (nd, ts[1]))
+                    return ts
+                try:
+                    pathstate.walk(f, None, on_node)
+                except pathstate.Budget as ex:
+                    res.broke("R7: %s" % ex)
+                    continue
+                n += 1
+                bad = sorted(hits.values(), key=lambda h: h[0]["l"])
+                ncons = len([e for e in effs.values() if e == "consume"])
+                res.add("R7.iteration_scratch_cleared", "R7|%s|%s|%s" % (f.relfile(), f.name, name), f.where(bad[0][0]) if bad else f.where(lp), not bad,
+                        "`%s` (%d consumer(s) in the loop at line %s) is never consumed with content collected in an earlier iteration"
+                        % (name, ncons, lp["l"]) if not bad else
+                        "`%s` is filled at line %s, the loop body (line %s) is entered again without a clear(), and `%s` at line %s then consumes "
+                        "it: text collected for one instance (the comment in front of an instance that is skipped) is attached to the next "
+                        "instance read" % (name, bad[0][1], lp["l"], (bad[0][0].get("fn") or "?").rsplit("::", 1)[-1], bad[0][0]["l"]))
+    res.floor("R7.iteration_scratch_cleared", "per-iteration scratch strings in reading loops", n, 2)
+
+
 def run(prog, res, tier):
     from rules import c13 as _c13
     _c13.r3_clear_resets_max(prog, res, rule="R6.cleared_manager_is_recognised_empty")
@@ -278,3 +352,4 @@ def run(prog, res, tier):
     r2_passes(prog, res)
     r3_state_kept(prog, res)
     r4_bracket(prog, res)
+    r7_iteration_scratch_cleared(prog, res)
